@@ -249,6 +249,14 @@ func propLinearizable(c *Case) {
 	cfgTTL := []time.Duration{time.Hour, cache.UnlimitedTTL, time.Second}[c.Pick("cfgTTL", 3)]
 	evict := c.Bool("eviction")
 
+	// focus: an UnlimitedTTL cache that receives per-call TTLs now and then, with cleanup cycles racing those
+	// writes and long pauses in between (the delete-expired scan of such a cache is switched on and off by need)
+	focus := c.Weighted("focus-unlimited-with-ttl-writes", 5, 1) == 1
+	if focus {
+		cfgTTL, evict, strategy = cache.UnlimitedTTL, false, cache.EvictMostExpired
+		c.Class("focus=unlimited-ttl-cache-with-per-call-ttls")
+	}
+
 	// slot keys: slot 0 is a colliding pair on hash-indexed backends
 	base := make([]byte, 70)
 	for i := range base {
@@ -289,6 +297,10 @@ func propLinearizable(c *Case) {
 
 	for p := 0; p < nphases; p++ {
 		gaps[p] = []time.Duration{time.Nanosecond, time.Second + 1, 2 * time.Hour}[c.Pick("gap", 3)]
+		if focus {
+			gaps[p] = []time.Duration{time.Second + 1, 2 * time.Hour, 2 * time.Hour}[c.Pick("gap", 3)]
+		}
+
 		ng := c.Int("goroutines", 2, 8)
 
 		for g := 0; g < ng; g++ {
@@ -299,10 +311,19 @@ func propLinearizable(c *Case) {
 			for i := 0; i < nops; i++ {
 				o := lzOpSpec{slot: c.Pick("slot", nslots), spin: c.Int("spin", 0, 2)}
 
-				switch c.Weighted("op", 8, 8, 4, 1, 1, 3, 2, 1) {
+				weights := []int{8, 8, 4, 1, 1, 3, 2, 1}
+				if focus {
+					weights = []int{8, 6, 1, 1, 1, 8, 1, 0}
+				}
+
+				switch c.Weighted("op", weights...) {
 				case 0:
 					o.kind = lzWrite
 					o.ttl = []time.Duration{0, time.Hour, time.Second, -time.Second, -2 * time.Hour}[c.Pick("ttl", 5)]
+
+					if focus && o.ttl == 0 {
+						o.ttl = time.Second
+					}
 				case 1:
 					o.kind = lzRead
 				case 2:
